@@ -312,6 +312,29 @@ impl<'a> Gen<'a> {
         if !self.model.kind.has_quant() || self.model.n == 0 {
             return self.binary();
         }
+        // the same quantification again with a sub-set (or super-set) of the variables: results
+        // memoised for one variable set must not be served for another
+        if self.rng.chance(1, 3) {
+            let prev = self.out.iter().rev().take(6).find_map(|i| match i {
+                Instr::ApplyQuant { q, op, a, b, vars, .. } if self.model.reg(*a).is_some() && self.model.reg(*b).is_some() => {
+                    Some((true, *q, *op, *a, *b, *vars))
+                }
+                Instr::Quantify { q, a, vars, .. } if self.model.reg(*a).is_some() => Some((false, *q, BinOp::And, *a, *a, *vars)),
+                _ => None,
+            });
+            if let Some((is_apply, q, op, a, b, vars)) = prev {
+                let m = (1u32 << self.model.n) - 1;
+                let v2 = match self.rng.below(4) {
+                    0 => vars & (vars.wrapping_sub(1)),                 // lowest variable removed
+                    1 => vars & !(1u32 << (31 - (vars | 1).leading_zeros())), // highest removed
+                    2 => vars & self.rng.next() as u32,
+                    _ => (vars | self.rng.next() as u32) & m,
+                } & m;
+                let d = self.dest();
+                let i = if is_apply { Instr::ApplyQuant { d, q, op, a, b, vars: v2 } } else { Instr::Quantify { d, q, a, vars: v2 } };
+                return self.push(i);
+            }
+        }
         let Some(a) = self.pick_live() else { return self.leaf() };
         let d = self.dest();
         let n = self.model.n;
